@@ -789,6 +789,70 @@ def cluster_monoexons_level():
     return n, bad
 
 
+def _iso_lists(U, maxk):
+    """every sorted list of 1..maxk intervals over 1..U with at least one base between consecutive intervals"""
+    out = []
+
+    def rec(cur, lo):
+        if cur:
+            out.append(tuple(cur))
+        if len(cur) == maxk:
+            return
+        for a in range(lo, U + 1):
+            for b in range(a, U + 1):
+                rec(cur + [(a, b)], b + 2)
+    rec([], 1)
+    return out
+
+
+def isoform_profiles_chunk(args):
+    """the exon, intron and split-exon profiles GeneInfo.from_models gives three isoforms of one gene (present / absent / outside the
+       isoform) against those of the mirror image: same features mirrored, same values in reverse order"""
+    U, lists, idx = args
+    from src.gene_info import GeneInfo, TranscriptModel, TranscriptModelType
+    bad = []
+    n = 0
+    mir = lambda ex: tuple((U + 1 - b, U + 1 - a) for a, b in reversed(ex))
+
+    def profiles(isos, strand):
+        tms = [TranscriptModel("chr1", strand, "t%d" % k, "g", list(ex), TranscriptModelType.known) for k, ex in enumerate(isos)]
+        gi = GeneInfo.from_models(tms, delta=0)
+        res = {}
+        for kind, fp in (("exon", gi.exon_profiles), ("intron", gi.intron_profiles), ("split", gi.split_exon_profiles)):
+            res[kind] = (list(fp.features), {t: list(p) for t, p in fp.profiles.items()})
+        return res
+    for i in idx:
+        a = lists[i]
+        for j in range(i, len(lists)):
+            for k in range(j, len(lists)):
+                isos = (a, lists[j], lists[k])
+                n += 1
+                try:
+                    p0 = profiles(isos, "+")
+                    p1 = profiles(tuple(mir(x) for x in isos), "-")
+                except Exception as e:  # noqa
+                    bad.append((isos, "exception %r" % (e,)))
+                    continue
+                for kind in p0:
+                    f0, v0 = p0[kind]
+                    f1, v1 = p1[kind]
+                    back = [(U + 1 - b_, U + 1 - a_) for a_, b_ in f1]
+                    if sorted(back) != sorted(f0):
+                        bad.append((isos, "%s features %s, the mirror image has (mapped back) %s" % (kind, f0, sorted(back))))
+                        break
+                    # nested features are ordered differently in the two worlds: compare feature by feature
+                    d = [t for t in v0 if dict(zip(back, v1[t])) != dict(zip(f0, v0[t]))]
+                    if d:
+                        t = d[0]
+                        m1 = dict(zip(back, v1[t]))
+                        bad.append((isos, "%s profile of isoform %s over features %s is %s, the mirror image gives (mapped back) %s" %
+                                    (kind, isos[int(t[1:])], f0, v0[t], [m1[f] for f in f0])))
+                        break
+                if len(bad) > 3:
+                    return n, bad
+    return n, bad
+
+
 def cluster_introns_level():
     """IntronCollector.cluster_introns on two or three unannotated introns that are similar (within the clustering distance) with counts
        1..3: the substitution map and the clustered counts of the mirrored introns must be the mirror image"""
@@ -1024,6 +1088,13 @@ def run(ctx):
             ctx.violation("l0:simplify-not-mirrored" + (":discarded-only" if kind_ == "discarded" else ""), msg,
                           {"chains": [[[list(i) for i in path], m] for path, m in paths]})
     ctx.note("L0 graph simplification: %d sets of intron chains through the real IntronGraph.simplify, input vs mirror image" % n_sg)
+    il = _iso_lists(6 if quick else 7, 2)
+    n_ip = 0
+    for n_, bad_ in core.pmap(isoform_profiles_chunk, [(6 if quick else 7, il, ix) for ix in core.chunks(list(range(len(il))), core.NCPU * 4)]):
+        n_ip += n_
+        for isos, msg in bad_[:1]:
+            ctx.violation("l0:isoform-profiles-not-mirrored", "isoforms %s: %s" % (list(isos), msg), {"isoforms": [[list(e) for e in x] for x in isos]})
+    ctx.note("L0 isoform profiles: %d triples of isoforms (<=2 exons over 1..%d) through the real GeneInfo.from_models, input vs mirror image" % (n_ip, 6 if quick else 7))
     n_ci, bad_ci = cluster_introns_level()
     for kind_ in ("tie", "other"):
         for k_, case_, msg in [b for b in bad_ci if b[0] == kind_][:2]:
@@ -1128,4 +1199,11 @@ def run(ctx):
 
 
 def replay(ctx, c):
+    if "isoforms" in c:
+        isos = [tuple(tuple(e) for e in x) for x in c["isoforms"]]
+        U = max(e[1] for x in isos for e in x)
+        lists = sorted(set(isos))
+        n, bad = isoform_profiles_chunk((U, lists, list(range(len(lists)))))
+        hit = [m for i_, m in bad if sorted(i_) == sorted(isos)]
+        return hit[0] if hit else None
     return "re-run ./check C11 (deterministic): scenario %s transformation %s" % (c.get("scenario"), c.get("transform"))
